@@ -10,6 +10,7 @@ pub mod c06;
 pub mod c07;
 pub mod c08;
 pub mod c10;
+pub mod c16;
 
 pub struct Entry {
     pub id: &'static str,
@@ -25,7 +26,7 @@ pub fn lookup(id: &str) -> Option<&'static Entry> {
     ALL.iter().find(|e| e.id == id)
 }
 
-pub static ALL: &[Entry] = &[c01::ENTRY, c02::ENTRY, c03::ENTRY, c04::ENTRY, c06::ENTRY, c07::ENTRY, c08::ENTRY, c10::ENTRY];
+pub static ALL: &[Entry] = &[c01::ENTRY, c02::ENTRY, c03::ENTRY, c04::ENTRY, c06::ENTRY, c07::ENTRY, c08::ENTRY, c10::ENTRY, c16::ENTRY];
 
 pub fn replay(ctx: &Ctx, path: &str) -> i32 {
     common::replay_file(ctx, path)
